@@ -28,14 +28,24 @@ func main() {
 
 	cw, closef := newCaseWriter(*out)
 	cw.only = *only
-	switch kind {
-	case "c06":
-		genC06(cw, *seed, *tier)
-	case "c09":
-		genC09(cw, *seed, *tier)
-	default:
-		fmt.Fprintln(os.Stderr, "unknown kind", kind)
-		os.Exit(2)
+	for _, kind := range strings.Split(kind, ",") {
+		switch kind {
+		case "c06":
+			genC06(cw, *seed, *tier)
+		case "c09":
+			genC09(cw, *seed, *tier)
+		case "std":
+			genStd(cw, *seed, *tier)
+		case "c10":
+			genC10(cw, *seed, *tier)
+		case "c11":
+			genC11(cw, *seed, *tier)
+		case "c12":
+			genC12(cw, *seed, *tier)
+		default:
+			fmt.Fprintln(os.Stderr, "unknown kind", kind)
+			os.Exit(2)
+		}
 	}
 	closef()
 	cw.writeStats(*stats)
